@@ -1,5 +1,5 @@
 CONSTANTS HdlVal = 5 MinPL = 27 TtxN = 2 VpsN = 1 TSP = 11 HL = 17 TSH = 10 MaxLines = 64
-  Streams <- StreamsO RecStreams <- RecAll CorLines = {} Policies = {"err"} RecMode = "known"
+  Streams <- StreamsO RecStreams <- RecAll CorLines = {} Policies = {"err"} RecMode = "known" CcStarts = {}
 SPECIFICATION Spec
 INVARIANTS Recovery RecoveryMeaningful
 CHECK_DEADLOCK FALSE
